@@ -1,14 +1,13 @@
 \* GENERATED by gen_tokparam_cfgs.py
-\* NOTE: the Go adapter (harness/kinds.go skipQuotedObj.obs) prints `{}`; TLC cannot print an empty record, the
-\* model emits obs = {"dummy":0}.  Until the adapter prints {"dummy":0} every record of this cfg drifts on obs
-\* only (verdict and offset agree).
+\* The object is stateless; TLC cannot print an empty record, so the model emits obs = {"dummy":0} and the Go
+\* adapter (harness/kinds.go skipQuotedObj.obs) prints the same.
 SPECIFICATION Spec
 VIEW view
 CONSTANTS
   OffsMod = 65536
   Kind = "skipquoted"
   Atoms <- AtomsSkipQ2
-  MaxLen = 7
+  MaxLen = 6
   Cfgs <- CfgsOf
   Starts = {0, 3}
   FlagSet = {0}
